@@ -145,3 +145,21 @@ Proof.
   exact (C19_itml_rotation d Q HQ HD g cs A0 A0' lo hi n Hw (iA d A0 B0 HI) (iA d A0' B0' HI') HC).
 Qed.
 Print Assumptions C19_itml_rotation_source.
+
+(* LSML under an orthogonal change of coordinates, for the comparison loss as TRANSLATED from lsml.py on this run
+   (gen/Src_lsml.v): with Q orthogonal (it preserves dot products) and M' acting on rotated vectors as the rotated M, the loss of the
+   rotated quadruplet differences under M' is the loss of the original ones under M - the hinge part of the objective LSML
+   descends is invariant, so the rotated problem has the rotated solutions (the LogDet part is C19_covariance's kind of statement) *)
+From ML Require Import NPNum C19Lsml.
+From MLgen Require Import Src_lsml.
+Definition C19_lsml_rotation_source_stmt : Prop :=
+  forall d (Q M M' : Rm) (w : Rv) (vab vcd : Rm),
+    wfmR d d Q -> wfmR d d M -> wfmR d d M' ->
+    (forall x y, wfvR d x -> wfvR d y -> vdotR (mvmulR Q x) (mvmulR Q y) = vdotR x y) ->
+    (forall x, wfvR d x -> mvmulR M' (mvmulR Q x) = mvmulR Q (mvmulR M x)) ->
+    Forall (wfvR d) vab -> Forall (wfvR d) vcd -> length w = length vab -> length vab = length vcd ->
+    @lsml_comparison_loss ROps w M' (map (mvmulR Q) vab) (map (mvmulR Q) vcd) = @lsml_comparison_loss ROps w M vab vcd.
+
+Theorem C19_lsml_rotation_source : C19_lsml_rotation_source_stmt.
+Proof. exact src_comparison_loss_rotation. Qed.
+Print Assumptions C19_lsml_rotation_source.
